@@ -106,13 +106,14 @@ SHARE = {
             ('C07.10', 'keys are compared after as_primitive'), ('C07.11', 'identical unorderable keys (None) are equal')],
     'C03': [('C19.3', 'nested list/dict arguments are aligned member by member by the loop lifting')],
     'C06': [('C18.3', 'a callable filter receives exactly the columns it names (kwargs_support)')],
+    'C07': [('C18.3', 'dictable.sort with a key FUNCTION calls it with the columns it names (kwargs_support / getargs)')],
     'C08': [('C03.1', 'operators act on ALIGNED operands: the join policies'), ('C03.2', 'as-of fill'), ('C03.3', 'array alignment'), ('C03.7', 'every operand enters the common index'),
             ('C03.8', 'missing columns are NaN, not a number'), ('C03.9', 'nested operands are found'), ('C03.10', 'the call-time policies override the decorator defaults axis by axis')],
     # (C10 is NOT given the dt_bump obligations of C09: its statement defines the expected list BY iterating dt_bump, so a defect of dt_bump is not a defect of drange)
     'C11': [('C07.2', 'groups are runs of cmp-equal keys in cmp order'), ('C07.3', 'numeric / NaN keys'), ('C07.9', 'string keys rank like native order'), ('C07.10', 'numpy scalars as keys'),
             ('C07.11', 'None keys')],
     # (C12 is not given the df_slice obligations: its statement speaks of the 'nona' METHOD, which does not go through the edge slicing of _nona)
-    'C16': [('C15.1', 'd + other is tree_update: neither operand modified'), ('C15.3', 'override semantics of the merge'), ('C18.8', 'Dict.__call__ binds arguments by name'), ('C18.3', 'the names a callable takes from the mapping are getargs(f): positional AND keyword-only parameters')],
+    'C16': [('C15.1', 'd + other is tree_update: neither operand modified'), ('C15.3', 'override semantics of the merge'), ('C15.4', 'the merged mapping keeps the class of the left operand, also when that is empty'), ('C18.8', 'Dict.__call__ binds arguments by name'), ('C18.3', 'the names a callable takes from the mapping are getargs(f): positional AND keyword-only parameters')],
     'C20': [('C02.1', 'perdictable joins its inputs with dictable.join'), ('C02.4', 'cross product of equal keys'), ('C02.5', 'anti-join for the defaulted side'), ('C02.6', 'mode / key columns'),
             ('C02.9', 'key columns of the joined table')],
 }
